@@ -174,6 +174,7 @@ def run(ctx):
     ctx.explore("model.values", dm.value_sweep(), check_doc, chunk=10)
     ctx.explore("model.decoration", dm.decoration_sweep(), check_doc_canonical, chunk=100)
     ctx.explore("model.frontmatter", dm.frontmatter_docs(), check_doc_singles, chunk=2)
+    ctx.explore("model.deep", dm.deep_docs(), check_doc_singles, chunk=1)
     ctx.explore("model.targets", dm.target_docs(), check_doc, chunk=1)
     ctx.explore("model.comments", dm.comment_sweep(2 if ctx.quick else 3), check_doc_singles, chunk=40)
     ctx.explore("model.adjacency", dm.adjacency_sweep(inside=("top",) if ctx.quick else ("top", "block", "section")),
